@@ -9,6 +9,14 @@
 // stream stays open) with the downstream sender's hold gate armed — the worker forwards the head and then sits in the
 // sender, as it does in a streaming codec while the body is in flight; labels E<k> (body ended), X<k> (reset), DR and CC
 // end that wait (the gate is released after them), every other label is delivered while the worker keeps waiting.
+// Answer tokens (proxy3): the response of attempt k carries the token a<k> in its headers, body and trailers
+// (px.AnswerOf); the downstream sender calls of the trace are printed with the token of the part they write
+// (dh:<status>:<eos>:<tok> dd:<eos>:<tok> dt:<tok>, `l` = a reply MOSN generated itself).
+// TerminateStream: TM<code> calls it on the hidden handler of this request, TS<code> on the kept handler of an EARLIER,
+// finished request whose pooled downStream object this request reuses (Cfg.Stale: warm-up exchanges run first on the
+// same fixture; offered only when the reuse was observed), TR<code>:<k>:<dt> calls it with an in-flight response of
+// attempt k delivered inside its reset of the upstream request (between the claim of the response slot and the local
+// reply). The return values are printed as tm=<0|1>,… . W is idle time (one grid step, no event).
 package dsx
 
 import (
@@ -44,6 +52,7 @@ type Cfg struct {
 	MR, MQ                 int  // max_retries, max_requests
 	AR, AQ                 int  // ambient retries / requests held by others
 	LongGlobal             bool // global timeout far beyond the history (the model has no clock): long retry chains
+	Stale                  bool // run warm-up exchanges first and offer TS (TerminateStream on a kept handler of a finished request)
 }
 
 func (c Cfg) global() time.Duration {
@@ -81,10 +90,14 @@ type Chooser func(step int, options []string, done bool) int
 // Result of one history.
 type Result struct {
 	Sched  string // labels driven, comma separated ("-" = none)
-	Out    string // trace=... ledger=... done=...
+	Out    string // trace=... ledger=... done=... tm=...
 	Skewed bool   // a deadline was crossed outside a timer label: the run must be discarded
 	Labels int
+	Reuse  string // Cfg.Stale: "reused" (the request runs on the pooled object of a warm-up exchange) | "fresh" | ""
 }
+
+// idle is the length of a W label.
+const idle = 45 * time.Millisecond
 
 func (c Cfg) fixture() *px.Fixture {
 	cl := px.Cluster{Name: "c", Hosts: 1, MaxRetries: uint32(c.MR), MaxRequests: uint32(c.MQ)}
@@ -136,9 +149,25 @@ func (c Cfg) fixture() *px.Fixture {
 	return f
 }
 
-// Canon converts px trace tokens to the model's tokens.
-func Canon(tr []string) string {
+// Canon converts px trace tokens to the model's tokens (without answer tokens).
+func Canon(tr []string) string { return CanonToks(tr, nil) }
+
+// CanonToks converts px trace tokens to the model's tokens; toks are the answer tokens of the downstream sender calls
+// (px Exchange.DownToks), appended to the dh / dd / dt tokens in order (nil: none appended).
+func CanonToks(tr []string, toks []string) string {
 	var out []string
+	nd := 0
+	tok := func() string {
+		if toks == nil {
+			return ""
+		}
+		t := "?"
+		if nd < len(toks) {
+			t = toks[nd]
+		}
+		nd++
+		return ":" + t
+	}
 	for _, t := range tr {
 		p := strings.Split(t, ":")
 		switch p[0] {
@@ -153,7 +182,9 @@ func Canon(tr []string) string {
 		case "ud":
 			out = append(out, "ud:"+p[1]+":"+p[3])
 		case "dd":
-			out = append(out, "dd:"+p[2])
+			out = append(out, "dd:"+p[2]+tok())
+		case "dt":
+			out = append(out, "dt"+tok())
 		case "ur":
 			out = append(out, "ur:"+p[1])
 		case "dr":
@@ -163,7 +194,7 @@ func Canon(tr []string) string {
 			if st == "-" {
 				st = "0"
 			}
-			out = append(out, "dh:"+st+":"+p[2])
+			out = append(out, "dh:"+st+":"+p[2]+tok())
 		default:
 			out = append(out, t)
 		}
@@ -196,12 +227,37 @@ func Run(c Cfg, choose Chooser, maxLabels int) Result {
 	}
 	started := false
 	streamed := map[int]bool{} // attempts that received the head of a streamed response
+	var tm []string            // return values of the TerminateStream calls
+	var warm []*px.Exchange    // finished warm-up exchanges whose hidden handlers are kept
+	var stale *px.Exchange     // the warm-up exchange whose pooled downStream object the request reuses
 	defer func() {
 		if ex != nil {
 			ex.Release()
 			ex.ForgetHold()
+			ex.ForgetProv()
+		}
+		for _, w := range warm {
+			w.ForgetProv()
 		}
 	}()
+	if c.Stale && !c.OneWay && c.Route == "c" {
+		// warm-up: complete exchanges that finish normally, so that their pooled buffers (the downStream object among
+		// them) go back to the pool; run back to back on this goroutine so that the request that follows is likely to
+		// get one of them
+		for i := 0; i < 3; i++ {
+			w := f.Request(px.H(":path", "/a", ":authority", "svc"), nil, nil)
+			a := w.WaitAttempt(0)
+			if a == nil || a.Failed != "" {
+				break
+			}
+			a.Respond(200, nil, nil, nil)
+			if !w.WaitDone(300 * time.Millisecond) {
+				break
+			}
+			w.WaitQuiescent()
+			warm = append(warm, w)
+		}
+	}
 	// deadlines (relative to ex start); consumed ones are removed
 	ptConsumedFor := -1 // attempt index whose per-try deadline was consumed by a PT label
 	gtConsumed := false
@@ -276,7 +332,8 @@ func Run(c Cfg, choose Chooser, maxLabels int) Result {
 						for _, code := range respCodes {
 							opts = append(opts, fmt.Sprintf("R%d:%d:00", a.Index, code))
 						}
-						opts = append(opts, fmt.Sprintf("R%d:200:10", a.Index), fmt.Sprintf("R%d:200:11", a.Index), fmt.Sprintf("R%d:503:01", a.Index))
+						opts = append(opts, fmt.Sprintf("R%d:200:10", a.Index), fmt.Sprintf("R%d:200:11", a.Index), fmt.Sprintf("R%d:503:01", a.Index),
+							fmt.Sprintf("R%d:503:10", a.Index), fmt.Sprintf("R%d:503:11", a.Index))
 						// head of a streamed response (body / trailers in flight)
 						opts = append(opts, fmt.Sprintf("B%d:200:10", a.Index), fmt.Sprintf("B%d:200:01", a.Index), fmt.Sprintf("B%d:200:11", a.Index),
 							fmt.Sprintf("B%d:503:10", a.Index))
@@ -296,6 +353,19 @@ func Run(c Cfg, choose Chooser, maxLabels int) Result {
 				}
 				if !c.OneWay && !ex.Done() { // asynchronous TerminateStream while the worker is parked
 					opts = append(opts, "TM418")
+					// … with an in-flight response of the current live attempt landing inside the call
+					if as := ex.UpstreamAttempts(); len(as) > 0 {
+						if a := as[len(as)-1]; a.Failed == "" && a.Live() && !streamed[a.Index] {
+							opts = append(opts, fmt.Sprintf("TR418:%d:10", a.Index), fmt.Sprintf("TR418:%d:11", a.Index))
+						}
+					}
+					// … on the kept handler of the finished warm-up exchange whose object this request runs on
+					if stale != nil {
+						opts = append(opts, "TS419")
+					}
+				}
+				if now+actBudget+idle < next {
+					opts = append(opts, "W")
 				}
 			}
 			// timer labels: only the earliest deadline, and only when the other one is far enough
@@ -319,6 +389,15 @@ func Run(c Cfg, choose Chooser, maxLabels int) Result {
 		case lb == "S":
 			started = true
 			ex = f.RequestHold(px.H(":path", "/a", ":authority", "svc"), body, trailers)
+			if c.Stale {
+				res.Reuse = "fresh"
+				for _, w := range warm {
+					if w.SharesStreamWith(ex) {
+						stale = w
+						res.Reuse = "reused"
+					}
+				}
+			}
 		case lb == "PFo":
 			f.PoolFail(types.Overflow)
 			continue
@@ -357,18 +436,11 @@ func Run(c Cfg, choose Chooser, maxLabels int) Result {
 			var dt string
 			fmt.Sscanf(strings.ReplaceAll(lb[1:], ":", " "), "%d %d %s", &k, &code, &dt)
 			a := ex.UpstreamAttempts()[k]
-			var rb []byte
-			var rt map[string]string
-			if dt[0] == '1' {
-				rb = []byte("resp")
-			}
-			if dt[1] == '1' {
-				rt = map[string]string{"rt": "1"}
-			}
+			rh, rb, rt := px.AnswerOf(k, dt[0] == '1', dt[1] == '1')
 			streamed[k] = true
 			armedHere = true
 			ex.ArmHold()
-			a.RespondStreaming(code, nil, rb, rt)
+			a.RespondStreaming(code, rh, rb, rt)
 		case strings.HasPrefix(lb, "E"):
 			var k int
 			fmt.Sscan(lb[1:], &k)
@@ -377,21 +449,33 @@ func Run(c Cfg, choose Chooser, maxLabels int) Result {
 		case strings.HasPrefix(lb, "TM"):
 			code := 0
 			fmt.Sscan(lb[2:], &code)
-			ex.Terminate(code)
+			tm = append(tm, b(ex.Terminate(code)))
+		case strings.HasPrefix(lb, "TS"):
+			code := 0
+			fmt.Sscan(lb[2:], &code)
+			r, _ := stale.TerminateSafe(code)
+			tm = append(tm, b(r))
+		case strings.HasPrefix(lb, "TR"):
+			var code, k int
+			var dt string
+			fmt.Sscanf(strings.ReplaceAll(lb[2:], ":", " "), "%d %d %s", &code, &k, &dt)
+			a := ex.UpstreamAttempts()[k]
+			rh, rb, rt := px.AnswerOf(k, dt[0] == '1', dt[1] == '1')
+			// the frame lands inside TerminateStream's reset of the upstream request; the call stays there until whatever
+			// the frame set off has run its course (nothing, when the frame is dropped)
+			a.OnProxyReset(func() { a.RespondInFlight(rh, rb, rt); ex.WaitQuiescentFor(6 * time.Millisecond) })
+			tm = append(tm, b(ex.Terminate(code)))
+			a.OnProxyReset(nil)
+		case lb == "W":
+			plannedSleep = idle
+			time.Sleep(idle)
 		case strings.HasPrefix(lb, "R"):
 			var k, code int
 			var dt string
 			fmt.Sscanf(strings.ReplaceAll(lb[1:], ":", " "), "%d %d %s", &k, &code, &dt)
 			a := ex.UpstreamAttempts()[k]
-			var rb []byte
-			var rt map[string]string
-			if dt[0] == '1' {
-				rb = []byte("resp")
-			}
-			if dt[1] == '1' {
-				rt = map[string]string{"rt": "1"}
-			}
-			a.Respond(code, nil, rb, rt)
+			rh, rb, rt := px.AnswerOf(k, dt[0] == '1', dt[1] == '1')
+			a.Respond(code, rh, rb, rt)
 		case strings.HasPrefix(lb, "X"):
 			p := strings.SplitN(lb[1:], ":", 2)
 			var k int
@@ -462,12 +546,20 @@ func Run(c Cfg, choose Chooser, maxLabels int) Result {
 	if len(labels) > 0 {
 		res.Sched = strings.Join(labels, ",")
 	}
+	tms := "-"
+	if len(tm) > 0 {
+		tms = strings.Join(tm, ",")
+	}
 	if ex == nil {
 		l := f.Ledger()
-		res.Out = fmt.Sprintf("trace=- ledger=%d,%d,%d,%d done=0", l.Requests["c"], l.Retries["c"], l.UpActive["c"], l.DownActive+1)
+		res.Out = fmt.Sprintf("trace=- ledger=%d,%d,%d,%d done=0 tm=%s", l.Requests["c"], l.Retries["c"], l.UpActive["c"], l.DownActive+1, tms)
 		return res
 	}
 	l := f.Ledger()
-	res.Out = fmt.Sprintf("trace=%s ledger=%d,%d,%d,%d done=%s", Canon(ex.Trace()), l.Requests["c"], l.Retries["c"], l.UpActive["c"], l.DownActive, b(ex.Done()))
+	toks := ex.DownToks()
+	if toks == nil {
+		toks = []string{}
+	}
+	res.Out = fmt.Sprintf("trace=%s ledger=%d,%d,%d,%d done=%s tm=%s", CanonToks(ex.Trace(), toks), l.Requests["c"], l.Retries["c"], l.UpActive["c"], l.DownActive, b(ex.Done()), tms)
 	return res
 }
